@@ -322,6 +322,16 @@ class RecocoIOWorker (IOWorker):
       pass
     self.on_close(self)
 
+  def shutdown (self, send = True, recv = True):
+    IOWorker.shutdown(self, send, recv)
+    if (send and len(self.send_buf) == 0 and not self._connecting
+        and not self.closed):
+      # Nothing left to flush, so _do_send() will never get around to it
+      try:
+        self.socket.shutdown(socket.SHUT_WR)
+      except socket.error:
+        self.close()
+
 if not hasattr(socket, "MSG_DONTWAIT"):
   # Don't have this feature.
   RecocoIOWorker.send_fast = RecocoIOWorker.send
